@@ -453,3 +453,13 @@ brk("c05-placeholder-polarity", ["C05"], (SEC, "        if suit_digest_bytes.nam
 brk("c01-prepare-returns-stale-bytes", ["C01"], (IO, "        suit_obj = SuitEnvelopeTagged.from_obj(data)\n        suit_obj.update_severable_digests()\n        suit_obj.update_digest()\n        return suit_obj.to_cbor()",
                                                  "        suit_obj = SuitEnvelopeTagged.from_obj(data)\n        raw = suit_obj.to_cbor()\n        suit_obj.update_severable_digests()\n        suit_obj.update_digest()\n        return raw"))
 brk("c01-prepare-returns-other-object", ["C01"], (IO, "        suit_obj.update_digest()\n        return suit_obj.to_cbor()\n\n    def to_suit_file(self", "        suit_obj.update_digest()\n        return SuitEnvelopeTaggedSimplified.from_obj(data).to_cbor()\n\n    def to_suit_file(self"))
+brk("c06-dispatch-inverted", ["C06"], (ENCCMD, '    if kwargs["encrypt_subcommand"] == ENCRYPT_AND_GENERATE_FIRMWARE_CMD:', '    if kwargs["encrypt_subcommand"] != ENCRYPT_AND_GENERATE_FIRMWARE_CMD:'))
+brk("c12-dispatch-swapped", ["C12"], (MPI, '    if kwargs["mpi"] == MPI_GENERATE:', '    if kwargs["mpi"] == MPI_MERGE:'), (MPI, '    elif kwargs["mpi"] == MPI_MERGE:', '    elif kwargs["mpi"] == MPI_GENERATE:'))
+brk("c16-dispatch-swapped", ["C16"], (IMG, '    if kwargs["image"] == ImageCreator.IMAGE_CMD_BOOT:', '    if kwargs["image"] == ImageCreator.IMAGE_CMD_UPDATE:'), (IMG, '    elif kwargs["image"] == ImageCreator.IMAGE_CMD_UPDATE:', '    elif kwargs["image"] == ImageCreator.IMAGE_CMD_BOOT:'))
+brk("c10-dispatch-envelope-as-merge", ["C10"], (CACHE, '    elif kwargs["cache_create_subcommand"] == CACHE_CREATE_FROM_ENVELOPE_CMD:', '    elif kwargs["cache_create_subcommand"] == CACHE_MERGE_CMD:'), (CACHE, '    elif kwargs["cache_create_subcommand"] == CACHE_MERGE_CMD:\n        CacheMerge', '    elif kwargs["cache_create_subcommand"] == CACHE_CREATE_FROM_ENVELOPE_CMD:\n        CacheMerge'))
+ben("c06-dispatch-early-return", ["C06"], (ENCCMD, '    if kwargs["encrypt_subcommand"] == ENCRYPT_AND_GENERATE_FIRMWARE_CMD:\n        encrypt_and_generate(**kwargs)\n    elif kwargs["encrypt_subcommand"] == GENERATE_INFO_FIRMWARE_CMD:\n        generate_info(**kwargs)\n    else:\n        raise',
+                                           '    subcommand = kwargs["encrypt_subcommand"]\n    if subcommand == GENERATE_INFO_FIRMWARE_CMD:\n        generate_info(**kwargs)\n        return\n    if subcommand == ENCRYPT_AND_GENERATE_FIRMWARE_CMD:\n        encrypt_and_generate(**kwargs)\n        return\n    else:\n        raise'))
+brk("c06-output-path-join-swapped", ["C06"], (ENCCMD, '        SuitKWAlgorithms(kwargs["kw_alg"]),\n    )\n    with open(os.path.join(kwargs["output_dir"], "suit_encryption_info.bin"), "wb") as file:\n        file.write(encryption_info)\n    with open(os.path.join(kwargs["output_dir"], "encrypted_content.bin"), "wb") as file:', '        SuitKWAlgorithms(kwargs["kw_alg"]),\n    )\n    with open(os.path.join(kwargs["output_dir"], "suit_encryption_info.bin"), "wb") as file:\n        file.write(encryption_info)\n    with open(os.path.join("encrypted_content.bin", kwargs["output_dir"]), "wb") as file:'))
+brk("c15-key-write-dropped", ["C15"], (KEYS, "            fd.write(data)\n", "            pass\n"))
+brk("c15-keypair-files-swapped", ["C15"], (KEYS, 'self._write(private, f"{file_name_prefix}_priv.{encoding}")', 'self._write(public, f"{file_name_prefix}_priv.{encoding}")'))
+ben("c15-keypair-names-in-locals", ["C15"], (KEYS, '        self._write(private, f"{file_name_prefix}_priv.{encoding}")\n        self._write(public, f"{file_name_prefix}_pub.{encoding}")', '        private_name = file_name_prefix + "_priv." + encoding\n        public_name = file_name_prefix + "_pub." + encoding\n        self._write(private, private_name)\n        self._write(public, public_name)'))
